@@ -180,3 +180,42 @@ func (c *Ctx) ruleVerdict(fn *ssa.Function, val map[string]int64, depth int) (ac
 	}
 	return acceptsUnder(fn, v2), rejectsUnder(fn, v2)
 }
+
+// resolveGuardedDelegation additionally follows wrappers of the shape
+// `if <guard fails> { return <non-nil error> }; return otherEra.SameName(tx, …)`.
+func (c *Ctx) resolveGuardedDelegation(fn *ssa.Function) *ssa.Function {
+	for i := 0; i < 6; i++ {
+		fn = c.resolveDelegation(fn)
+		if fn == nil {
+			return fn
+		}
+		var next *ssa.Function
+		n := 0
+		ok := true
+		idx := errorResultIndex(fn)
+		for _, b := range fn.Blocks {
+			r, isRet := b.Instrs[len(b.Instrs)-1].(*ssa.Return)
+			if !isRet {
+				continue
+			}
+			if idx >= 0 && len(r.Results) == 1 {
+				if call, isCall := returnedValue(r, idx).(*ssa.Call); isCall {
+					if cal := call.Call.StaticCallee(); cal != nil && cal.Name() == fn.Name() && cal != fn && len(call.Call.Args) > 0 && trace(call.Call.Args[0]) == "p0" {
+						next = cal
+						n++
+						continue
+					}
+				}
+				if definitelyNonNilErr(returnedValue(r, idx), b, 0) {
+					continue
+				}
+			}
+			ok = false
+		}
+		if !ok || n != 1 || next == nil {
+			return fn
+		}
+		fn = next
+	}
+	return fn
+}
